@@ -72,6 +72,43 @@ fn case_dt_pair_inner(a: (i64, u64), b: (i64, u64), oa: i32, ob: i32, acc: &mut 
     }
 }
 
+/// one unit at a time, two calls in a row whose arguments are siblings (the same value a nanosecond,
+/// microsecond, ... day apart): the second answer must not depend on the first call
+fn case_unit_after_sibling(a: (i64, u64), b: (i64, u64), unit: usize, delta: i128, vary_b: bool, acc: &mut Acc) {
+    let sib = if vary_b { ins::join(b.0, b.1) + delta } else { ins::join(a.0, a.1) + delta };
+    if !ins::representable(sib) {
+        return;
+    }
+    let s = ins::split(sib);
+    let (x, y, z) = match (dt_from_off(a.0, a.1, 0), dt_from_off(b.0, b.1, 0), dt_from_off(s.0, s.1, 0)) {
+        (Some(x), Some(y), Some(z)) => (x, y, z),
+        _ => return,
+    };
+    let since = |p: &astrolabe::DateTime, q: &astrolabe::DateTime| -> i128 {
+        match unit {
+            0 => p.days_since(q) as i128,
+            1 => p.hours_since(q) as i128,
+            2 => p.minutes_since(q) as i128,
+            3 => p.seconds_since(q) as i128,
+            4 => p.millis_since(q),
+            5 => p.micros_since(q),
+            _ => p.nanos_since(q),
+        }
+    };
+    acc.transitions += 2;
+    acc.states += 1;
+    let got = call(|| {
+        let _first = if vary_b { since(&x, &z) } else { since(&z, &y) };
+        since(&x, &y)
+    });
+    let want = trunc_div(ins::join(a.0, a.1) - ins::join(b.0, b.1), UNITS[unit].1);
+    if got == Out::Val(want) {
+        acc.branch("asked-after-a-sibling");
+    } else {
+        acc.violation(&format!("DateTime::{}_since", UNITS[unit].0), "answer-depends-on-the-previous-call", json!({"kind": "sibling", "a": [a.0, a.1.to_string()], "b": [b.0, b.1.to_string()], "unit": unit, "delta": delta.to_string(), "vary_b": vary_b}), want.to_string(), got.show());
+    }
+}
+
 /// add_<unit>(n) then <unit>_since(original) gives n back
 fn case_inverse(day: i64, nod: u64, off: i32, unit: usize, n: u32, acc: &mut Acc) {
     let x = match dt_from_off(day, nod, off) {
@@ -223,6 +260,18 @@ pub fn run(ctx: &Ctx) -> i32 {
         let (a, b) = pow[i as usize];
         case_dt_pair(a, b, 0, if i % 5 == 0 { 3600 } else { 0 }, acc);
     });
+    // history independence: the same unit asked twice in a row with one argument moved by one of the code's time units
+    const NDIST: [i128; 10] = [1, -1, 999, 1_000, -1_000, 1_000_000, 999_999_999, 1_000_000_000, 60_000_000_000, 86_400_000_000_000];
+    let sa: Vec<(i64, u64)> = grid.iter().copied().chain(inst.iter().copied().step_by(7)).collect();
+    let sb: Vec<(i64, u64)> = grid.iter().copied().step_by(3).collect();
+    let (nsa, nsb) = (sa.len() as u64, sb.len() as u64);
+    rep.sweep("DateTime: <unit>_since asked right after the same question about a sibling argument (7 units x 10 distances x both arguments)", nsa * nsb * 7 * 10 * 2, "borrow grid and boundary instants as a, borrow grid as b", |i, acc| {
+        let vary_b = i % 2 == 0;
+        let delta = NDIST[(i / 2 % 10) as usize];
+        let unit = (i / 20 % 7) as usize;
+        let r = i / 140;
+        case_unit_after_sibling(sa[(r / nsb) as usize], sb[(r % nsb) as usize], unit, delta, vary_b, acc);
+    });
     // inversion of add_<unit>
     let counts = ab::counts_b();
     let nc = counts.len() as u64;
@@ -261,6 +310,7 @@ pub fn run(ctx: &Ctx) -> i32 {
 pub fn replay(_op: &str, case: &Value, acc: &mut Acc) -> bool {
     let p = |v: &Value| (v[0].as_i64().unwrap(), v[1].as_str().unwrap().parse::<u64>().unwrap());
     match case["kind"].as_str() {
+        Some("sibling") => case_unit_after_sibling(p(&case["a"]), p(&case["b"]), case["unit"].as_u64().unwrap() as usize, case["delta"].as_str().unwrap().parse().unwrap(), case["vary_b"].as_bool().unwrap(), acc),
         Some("dt") => case_dt_pair(p(&case["a"]), p(&case["b"]), case["oa"].as_i64().unwrap() as i32, case["ob"].as_i64().unwrap() as i32, acc),
         Some("inverse") => case_inverse(case["day"].as_i64().unwrap(), case["nod"].as_str().unwrap().parse().unwrap(), case["off"].as_i64().unwrap() as i32, case["unit"].as_u64().unwrap() as usize, case["n"].as_u64().unwrap() as u32, acc),
         Some("time") => case_time_pair(case["a"].as_str().unwrap().parse().unwrap(), case["b"].as_str().unwrap().parse().unwrap(), case["oa"].as_i64().unwrap() as i32, case["ob"].as_i64().unwrap() as i32, acc),
